@@ -136,7 +136,12 @@ class C16(Prop):
             extra = [r.choice(STMTS[:3] + STMTS[7:10]).format(p0="argument_parser", p1="argument_parser") for _ in range(r.randint(1, 3))]
             if r.random() < 0.3:
                 # `.add_argument` on another receiver (an argument group) is an ordinary statement, not an interface entry
-                extra += ["verbosity = argument_parser.add_mutually_exclusive_group()", "verbosity.add_argument('--quiet', action='store_true')"]
+                extra += r.choice([
+                    ["verbosity = argument_parser.add_mutually_exclusive_group()", "verbosity.add_argument('--quiet', action='store_true')"],
+                    # a sub-command's parser: its name ends like the interface parser's
+                    ["subparser = argument_parser.add_subparsers().add_parser('fit')", "subparser.add_argument('--split', type=str, default='train')"],
+                    ["arg_parser = make_parent()", "arg_parser.add_argument('--seed', type=int, default=3)"],
+                ])
             run.dist["family"]["argparse"] += 1
             # the final return: the bare parser, the documented pair, or a tuple of another shape (all carried verbatim)
             ret = r.choice(["return argument_parser", "return argument_parser", "return argument_parser, total",
